@@ -155,6 +155,16 @@ def isZero : Expr → Bool
   | .zero => true
   | _ => false
 
+/-- stable insertion (Python's `sorted` keeps the input order of elements that compare equal): `x` goes before
+the first element that is not smaller than it -/
+def insertStable {α} (lt : α → α → Bool) (x : α) : List α → List α
+  | [] => [x]
+  | y :: ys => if lt y x then y :: insertStable lt x ys else x :: y :: ys
+
+/-- stable insertion sort (`Y0.sortBy` of Model/Expr is not stable: it moves an earlier element behind later
+elements with an equal key) -/
+def sortStable {α} (lt : α → α → Bool) (l : List α) : List α := l.foldr (insertStable lt) []
+
 /-- `Product.safe` on an iterable of expressions -/
 def productSafe (es : List Expr) : Expr :=
   let es := es.filter (fun e => !isOne e)
@@ -162,48 +172,55 @@ def productSafe (es : List Expr) : Expr :=
   else match es with
     | [] => .one
     | [e] => e
-    | es => .prod (sortBy exprLt es)
+    | es => .prod (sortStable exprLt es)
 
 /-- `Fraction(n, d)` with its `__post_init__` -/
 def mkFrac (n d : Expr) : E Expr :=
   if isZero d then .error zeroDivision else .ok (.frac n d)
 
-/-- size used for the termination of `mul` -/
-def sz : Expr → Nat
-  | .frac n d => sz n + sz d + 1
-  | _ => 1
-
-/-- the `__mul__` overloads -/
-def mul (a b : Expr) : E Expr :=
+/-- `a.__mul__(b)` for `a` not a `Fraction` and `b` neither a `Fraction` nor handled recursively:
+the non-recursive branches of the `__mul__` overloads -/
+def mulFlat (a b : Expr) : Expr :=
   match a, b with
   -- Probability / PopulationProbability
-  | .prob .., .zero => .ok b
-  | .prob .., .one => .ok a
-  | .prob .., .prod gs => .ok (productSafe (a :: gs))
-  | .prob pop c p, .frac n d => do mkFrac (← mul (.prob pop c p) n) d
-  | .prob .., _ => .ok (productSafe [a, b])
+  | .prob .., .zero => b
+  | .prob .., .one => a
+  | .prob .., .prod gs => productSafe (a :: gs)
+  | .prob .., _ => productSafe [a, b]
   -- Product
-  | .prod _, .zero => .ok b
-  | .prod fs, .prod gs => .ok (productSafe (fs ++ gs))
-  | .prod fs, .frac n d => do mkFrac (← mul (.prod fs) n) d
-  | .prod fs, _ => .ok (productSafe (fs ++ [b]))
+  | .prod _, .zero => b
+  | .prod fs, .prod gs => productSafe (fs ++ gs)
+  | .prod fs, _ => productSafe (fs ++ [b])
   -- Sum
-  | .sum .., .zero => .ok b
-  | .sum .., .prod gs => .ok (productSafe (a :: gs))
-  | .sum .., _ => .ok (productSafe [a, b])
-  -- Fraction
-  | .frac .., .zero => .ok b
-  | .frac n d, .frac n2 d2 => do mkFrac (← mul n n2) (← mul d d2)
-  | .frac n d, y => do mkFrac (← mul n y) d
+  | .sum .., .zero => b
+  | .sum .., .prod gs => productSafe (a :: gs)
+  | .sum .., _ => productSafe [a, b]
   -- One, Zero
-  | .one, _ => .ok b
-  | .zero, _ => .ok a
+  | .one, _ => b
+  | .zero, _ => a
   -- QFactor
-  | .q .., .prod gs => .ok (productSafe (a :: gs))
-  | .q dom cod, .frac n d => do mkFrac (← mul (.q dom cod) n) d
-  | .q .., _ => .ok (productSafe [a, b])
-termination_by sz a + sz b
-decreasing_by all_goals (simp only [sz]; omega)
+  | .q .., .prod gs => productSafe (a :: gs)
+  | .q .., _ => productSafe [a, b]
+  -- (a Fraction on the left is handled by `mul`)
+  | .frac .., _ => productSafe [a, b]
+
+/-- `a.__mul__(b)` for `a` not a `Fraction`: `Probability`, `Product` and `QFactor` push themselves into the
+numerator of a `Fraction` on the right (recursion on `b`); `Sum`, `One`, `Zero` have no such branch -/
+def mulNF (a : Expr) : Expr → E Expr
+  | .frac n d =>
+    match a with
+    | .prob .. | .prod _ | .q .. => do mkFrac (← mulNF a n) d
+    | _ => .ok (mulFlat a (.frac n d))
+  | b => .ok (mulFlat a b)
+
+/-- the `__mul__` overloads (`Fraction.__mul__` recurses on the left operand) -/
+def mul : Expr → Expr → E Expr
+  | .frac n d, b =>
+    match b with
+    | .zero => .ok b
+    | .frac n2 d2 => do mkFrac (← mul n n2) (← mul d d2)
+    | _ => do mkFrac (← mul n b) d
+  | a, b => mulNF a b
 
 /-- `Expression.__truediv__`, `Fraction.__truediv__`, `Zero.__truediv__` -/
 def div (a b : Expr) : E Expr :=
